@@ -621,6 +621,13 @@ fn vq_c10_cubic_on_ack_slow_start_recovery() {
         assert!((kind(&cc) == Kind::CongestionAvoidance) == exits && (kind(&cc) == Kind::SlowStart) == !exits, "C10/cubic.on_ack/slow_start_exit_iff_threshold_reached");
         assert!((sink.slow_start_exits == 1) == exits, "C10/cubic.on_ack/slow_start_exit_event_iff_exit");
     } else {
+        // RFC 9002 7.3.2: "A recovery period ends ... when a packet sent DURING the recovery period is acknowledged":
+        // a packet sent at the very instant recovery started (same flight as the lost one) does not end it, otherwise a
+        // second loss from that flight would cut the window twice within one round trip.
+        assert!(
+            !(rs0 == Some(newest_acked_time_sent)) || (kind(&cc) == k0 && cc.congestion_window == cwnd),
+            "C10/cubic.on_ack/recovery_left_only_by_packet_sent_strictly_after_recovery_start"
+        );
         assert!(cc.congestion_window == cwnd, "C10/cubic.on_ack/no_growth_during_recovery");
         assert!(kind(&cc) == k0 && recovery_start(&cc) == rs0, "C10/cubic.on_ack/recovery_not_left_by_old_packet");
     }
@@ -629,6 +636,8 @@ fn vq_c10_cubic_on_ack_slow_start_recovery() {
     kani::cover!(!uu && k0 == Kind::SlowStart && kind(&cc) == Kind::CongestionAvoidance, "reach:slow_start_exit");
     kani::cover!(!uu && k0 == Kind::SlowStart && cc.congestion_window == cap && cap > cwnd, "reach:growth_capped");
     kani::cover!(!uu && k0 == Kind::RecoveryIdle, "reach:recovery_old_packet_acked");
+    kani::cover!(!uu && rs0 == Some(newest_acked_time_sent), "reach:acked_packet_sent_at_recovery_start_instant");
+    kani::cover!(!uu && rs0.is_some() && rs0 > Some(newest_acked_time_sent), "reach:acked_packet_sent_before_recovery_start");
     kani::cover!(cc.congestion_window >= TWO_POW_32, "reach:window_exceeds_u32_only_with_2GiB_in_flight");
     kani::cover!(n == bif && n > 0, "reach:everything_acked");
     kani::cover!(true, "reach:end");
@@ -678,6 +687,9 @@ fn vq_c10_cubic_on_ack_congestion_avoidance() {
     let hi1 = core::cmp::max(hi, bif);
     assert!(*cc.bytes_in_flight_hi == hi1, "C10/cubic.on_ack/in_flight_high_water_is_max");
     assert!(kind(&cc) == Kind::CongestionAvoidance, "C10/cubic.on_ack/newer_packet_acked_leaves_recovery_for_congestion_avoidance");
+    if let Some(start) = rs0 {
+        assert!(newest_acked_time_sent > start, "C10/cubic.on_ack/recovery_left_only_by_packet_sent_strictly_after_recovery_start");
+    }
     let cap = {
         let c = hi1 as f32 * 1.5;
         if c >= 2.0 * mds as f32 { c } else { 2.0 * mds as f32 }
